@@ -8,7 +8,9 @@ META = dict(
     design_ref='DESIGN.md section 4, C15',
     technique='Coq proof (induction + 256/65536-point sweeps over source-generated loop bodies) + extracted-model correspondence',
     level_text=('Theorems in coq/C15/Props.v, for all byte strings: escape output has no < > quote chars, every & opens one of '
-                'five entities, unescape(escape s)=s, escape commutes with concatenation, a failing sink gets a prefix; a value streamed '
+                'five entities, unescape(escape s)=s, escape commutes with concatenation, a failing sink gets exactly the prefix that fits and failure is '
+                'reported (return value / stream state) iff the output did not fit, also through the template filters; a filter on an already failed '
+                'stream writes nothing; a value streamed '
                 'in any pieces through the 128-byte filter buffer of the template filters = the filter of the whole value; a rendered '
                 'attribute/text slot cannot be terminated by its value; urlencode alphabet, urldecode(urlencode s)=s, exact behaviour of '
                 'urldecode on every malformed escape, re-encoding stability; base64url alphabet, decode(encode s)=s, exact sizes, '
@@ -19,8 +21,10 @@ META = dict(
                 'to the model functions for all inputs.'),
     level_note=('Trusted: Coq kernel + vm_compute; cxx2v translator and clang AST; the textual pre-processor prep_tu of checks/C15.py '
                 '(occurrence-counted rewrites, listed in docs/C15.md section 5) incl. its 3-line model of sscanf("%x") on two hex digits; '
-                'the loop skeletons of coq/C15/LinkLoops.v (how a body is iterated); ExtrOcamlBasic extraction. By correspondence only: '
-                'the failing-sink behaviour of escape(streambuf), filterbuf/steal_buffer (model fb_run vs real filters on pieces), the '
+                'the loop skeletons of coq/C15/LinkLoops.v (how a body is iterated); extraction with ExtrOcamlBasic and ExtrOcamlString (ascii -> char, '
+                'string -> char list, used only for the HTML literals of the widget skeleton). By correspondence only: the failing-sink behaviour '
+                'and status reporting of escape/urlencode(streambuf), filterbuf/steal_buffer (models fb_run, fbs_run, fbs_run_failed vs the real filters on '
+                'pieces, with an accepting sink, a failing sink and an already failed stream; stream state and release() value), the '
                 'std::string wrappers, form-widget rendering (slot content, slot context and complete HTML of 19 slots x 4 render modes).'),
 )
 
@@ -453,10 +457,10 @@ def oracle(case, out):
             return (c[1] + '-filter-failing-sink-not-prefix', 'sink with room for %d bytes did not receive exactly the first bytes of the filtered value' % room)
         fits = '1' if len(full) <= room else '0'
         if o[3] != 'rel=' + fits:
-            # known finding C15/2 for uenc: util::urlencode(b,e,streambuf&) always returns 0, so the filter buffer never sees the failure
+            # uenc: regression of /repo dd45f86 (util::urlencode(b,e,streambuf&) must report the failing sink to the filter buffer)
             return ('urlencode-streambuf-failure-not-reported' if c[1] == 'uenc' else c[1] + '-filterbuf-release-status', 'release() of the filter buffer reported %s but %d bytes had to go into %d' % (o[3], len(full), room))
         if o[2] != 'st=' + fits:
-            # known finding C15/1 for esc and uenc: the failbit set by filterbuf::write is cleared by rdbuf() in release()
+            # esc, uenc: regression of /repo 80bcd05 (the failbit set by filterbuf::write must survive the rdbuf() re-seating in release())
             return ('filter-failing-sink-error-lost' if c[1] in ('esc', 'uenc') else 'base64-filter-failing-sink-status',
                     'the sink failed while the %s filter was writing (%d bytes into room for %d) but the stream is in good state afterwards' % (c[1], len(full), room))
     elif op == 'strf':
@@ -465,7 +469,7 @@ def oracle(case, out):
     elif op == 'pcsb':
         r = unhex(o[1])
         if r or o[2] != 'st=0':
-            # known finding C15/1, same root cause: steal() re-seats the buffer with rdbuf(), which clears the error state
+            # regression of /repo 80bcd05: steal()/release() must keep the error state across the rdbuf() re-seating
             return ('filter-revives-failed-stream', 'a %s filter applied to a stream that had already failed wrote %d bytes and left the stream in good state' % (c[1], len(r)))
     elif op == 'formfull':
         why = check_full_widget(c[1], int(c[2]), unhex(c[3]), unhex(o[1]), unhex(o[2])) if len(o) == 3 else 'no rendering: ' + out[:100]
